@@ -73,6 +73,55 @@ PROPS = {
               '(composition through an existential intermediate), complex variants.',
         note=KERNEL_NOTE,
         technique='deductive: AST->z3 verification conditions from sidecar contracts'),
+    'C03': dict(
+        title='integer powers never rounded past the exact value', level='exploration', engines=[],
+        claim='Bounded only: for an enumerated grid of bases (all odd mantissas < 32 over an exponent window, boundary '
+              'mantissas of 20..100 bits, both signs), exponents n from -300 to 4097, precisions and all five modes, '
+              'mpf_pow_int is checked on the real code against the exact rational power: special values, exact small '
+              'cases correctly rounded, directed modes never on the wrong side, nearest within one ulp, canonical form and '
+              'bit bound. No deductive claim for the value clauses (see the contract docstring); canonical form and the '
+              'precision bound of mpf_pow_int are decided deductively under C01/C10 (refinement pass).',
+        note='Exact rational arithmetic (fractions.Fraction) is the oracle; the domain is listed in evidence.coverage.bounded.',
+        technique='bounded native evaluation of the contract clauses against an exact rational oracle (stand-in, not a proof)'),
+    'C37': dict(
+        title='pure-Python and GMP back ends give identical core results', level='proof', engines=[],
+        claim='gmpy2 is not installed, so the two back ends cannot be run side by side. Decided by contracts: the '
+              'Python-source gmpy_* variants (gmpy_mpf_mul, gmpy_mpf_mul_int) are proved against the same functional '
+              'contract as their python_* twins (bitcount\'s contract standing for gmpy bit_length / numdigits(2)); the '
+              'contract fixes the result tuple, so both return bit-identical canonical results. The C implementations '
+              '(gmpy._mpmath_normalize/_mpmath_create, gmpy.isqrt*) and "other routines agree within documented accuracy" '
+              'are outside any verifier here.',
+        note=KERNEL_NOTE + ' Assumed: gmpy primitives satisfy python_bitcount\'s contract; _mpmath_normalize satisfies _normalize\'s.',
+        technique='deductive: both back-end variants proved against one contract'),
+    'C40': dict(
+        title='pickling and copying preserve values exactly', level='proof', engines=[],
+        claim='from_pickable(to_pickable(x)) == x for every canonical raw mpf x (any mantissa length, special values '
+              'included): proved on a harness that inlines both real function bodies, under the assumed builtin contract '
+              'int(hex(m)[2:], 16) == m for m >= 0 (the obligation man >= 0 is discharged from canonical form). '
+              'Not covered: __getstate__/__setstate__ wrappers, matrix.copy, CPython\'s pickle/copy machinery.',
+        note=KERNEL_NOTE + ' Trusted: the hex/int round trip of CPython.',
+        technique='deductive: harness over the real to_pickable/from_pickable bodies, assumed builtin round trip'),
+    'C16': dict(
+        title='interval comparisons are sound three-valued predicates', level='proof', engines=['speclemmas'],
+        claim='For valid raw intervals (canonical non-nan endpoints, lower <= upper) mpi_lt/le/gt/ge return True exactly '
+              'when the relation holds for every pair of member points, False exactly when it fails for every pair, None '
+              'otherwise, and mpi_eq/mpi_ne compare the endpoints exactly: the endpoint form is proved from the real libmpi '
+              'bodies (using the proved exact-order contracts of mpf_lt/le/gt/ge), and the equivalence of the endpoint form '
+              'with the quantified statement is discharged as spec lemmas over the reals. Not covered: ivmpf.__contains__ '
+              'and the context-level _compare wrappers.',
+        note=KERNEL_NOTE,
+        technique='deductive: VCs from sidecar contracts + order-theoretic spec lemmas (z3, quantified reals)'),
+    'C14': dict(
+        title='real interval operations contain every exact result', level='exploration', engines=['ivbounded'], no_units=True,
+        claim='Bounded only (exact rational oracle): for all intervals with endpoints from a fixed list of 13 extended-real '
+              'values (infinite and half-infinite intervals, endpoints with more bits than the precision, zero-straddling '
+              'intervals) and precisions 1..53, the real libmpi add, sub, mul, div (divisor not containing 0), neg, abs, pos, '
+              'square and integer powers -3..5 are checked to contain the exact value at the endpoints, the midpoint and zero '
+              'of the operands. Not covered: exp, log, sqrt, sin, cos, tan, atan2, gamma family, real powers, conversions '
+              '(no exact oracle for transcendental functions here); no deductive claim yet for interval arithmetic '
+              '(the comparison operators are proved under C16).',
+        note='Exact rational arithmetic is the oracle; the enumerated domain is written into evidence.coverage.',
+        technique='bounded native containment check of the real interval operations against exact rational arithmetic (stand-in, not a proof)'),
     'C11': dict(
         title='working precision restored on every exit', level='proof', engines=['precframe'], no_units=True,
         claim='For every function, method, nested function and lambda in mpmath (outside tests and libmp; 1093 on this tree) '
@@ -88,15 +137,12 @@ PROPS = {
 }
 
 NOT_APPLICABLE = {
-    'C03': 'not built yet in this session (planned: direction invariant of mpf_pow_int by contract)',
     'C07': 'not built yet (from_str numeric core contract + bounded parsing)',
     'C08': 'round-trip/nearest-decimal needs a two-sided error analysis of to_digits_exp mixing floats, radix conversion and string slicing: outside what VCs over integers can decide; bounded-only tier not built',
     'C09': 'not built yet (from_float/to_float under assumed IEEE builtin contracts)',
     'C12': 'accuracy of elementary functions is a real-analysis statement (truncation + rounding error of series/Newton kernels); no contract within reach decides it',
     'C13': 'not built yet (special-value entry paths)',
-    'C14': 'not built yet (libmpi contracts)',
     'C15': 'not built yet (libmpi complex contracts)',
-    'C16': 'not built yet (interval comparison contracts)',
     'C17': 'not built yet (constant_memo contract)',
     'C18': 'accuracy of gamma-family functions is analytic; not decidable by contracts over integers',
     'C19': 'accuracy of zeta-family evaluations (Borwein / Euler-Maclaurin / Riemann-Siegel) is analytic',
@@ -117,10 +163,8 @@ NOT_APPLICABLE = {
     'C34': 'accuracy of ODE Taylor stepping is analytic',
     'C35': 'not built yet (pslq return guards)',
     'C36': 'approximation accuracy is analytic',
-    'C37': 'not built yet (gmpy_* Python-source twins against the same contract)',
     'C38': 'not built yet (context ownership contracts)',
     'C39': 'not built yet (mag / nint_distance / classification contracts)',
-    'C40': 'not built yet (pickle round trip under assumed hex builtin)',
     'C41': 'locating/counting zeta zeros correctly rests on analytic facts (Gram/Rosser blocks, Turing method)',
     'C42': 'accuracy of numerical inverse Laplace transforms is analytic (its precision handling is decided under C11)',
     'C43': 'fp results are IEEE doubles from libm; no float theory here matches libm, and agreement to 2**-48 is numerical',
